@@ -537,6 +537,14 @@ func showInJSDepth(env *env, out io.Writer, value any, path *showPath) error {
 
 	w := newStringWriter(out)
 
+	// A nil pointer is shown as null even if its type implements an
+	// interface of the type switch: the method may have a value receiver
+	// and cannot be called.
+	if rv := reflect.ValueOf(value); rv.Kind() == reflect.Pointer && rv.IsNil() {
+		_, err := w.WriteString("null")
+		return err
+	}
+
 	switch v := value.(type) {
 	case nil:
 		_, err := w.WriteString("null")
@@ -759,6 +767,14 @@ func showInJSON(env *env, out io.Writer, value any) error {
 func showInJSONDepth(env *env, out io.Writer, value any, path *showPath) error {
 
 	w := newStringWriter(out)
+
+	// A nil pointer is shown as null even if its type implements an
+	// interface of the type switch: the method may have a value receiver
+	// and cannot be called.
+	if rv := reflect.ValueOf(value); rv.Kind() == reflect.Pointer && rv.IsNil() {
+		_, err := w.WriteString("null")
+		return err
+	}
 
 	switch v := value.(type) {
 	case nil:
